@@ -202,13 +202,44 @@ func diagWorker(req N) (resp N) {
 		}
 	}
 	for m := 0; m < int(req["n"].(float64)); m++ {
-		src := ast.Mutate(r, rnd)
+		src := relayout(ast.Mutate(r, rnd), rnd)
 		ev := diagnose(src)
 		if ev != nil {
 			events = append(events, ev)
 		}
 	}
 	return N{"k": "ok", "events": events}
+}
+
+// relayout applies layout that the property permits to a (mutated) program before it is diagnosed: blank lines,
+// a leading line break, indentation, line comments at line ends, CRLF line endings. Positions and quoted lines
+// are judged against the text that was actually parsed.
+func relayout(src string, rnd *rand.Rand) string {
+	if rnd.Intn(3) == 0 {
+		return src
+	}
+	lines := strings.Split(src, "\n")
+	var out []string
+	if rnd.Intn(4) == 0 {
+		out = append(out, "")
+	}
+	for _, ln := range lines {
+		if rnd.Intn(5) == 0 {
+			out = append(out, "")
+		}
+		if rnd.Intn(6) == 0 {
+			ln = []string{"\t", "  ", "\t\t "}[rnd.Intn(3)] + ln
+		}
+		if rnd.Intn(8) == 0 && !strings.ContainsAny(ln, "`'\"") {
+			ln += " // c"
+		}
+		out = append(out, ln)
+	}
+	sep := "\n"
+	if rnd.Intn(4) == 0 {
+		sep = "\r\n"
+	}
+	return strings.Join(out, sep)
 }
 
 // diagnose parses and compiles src and describes the reported error, if any.
